@@ -164,12 +164,39 @@ def flip_positions(ctx, nbits, quick_n):
     return sorted(pos)
 
 
-def messages(ctx, n):
+_SHAPED = {}
+
+
+def shaped_messages(h):
+    """messages whose digest under h has a particular shape: first byte 0,
+    first byte 0xff, last byte 0, first two bytes 0 (found by counting)"""
+    if h in _SHAPED:
+        return _SHAPED[h]
+    want = {"lead00": lambda d: d[0] == 0, "leadff": lambda d: d[0] == 0xff,
+            "tail00": lambda d: d[-1] == 0,
+            "lead0000": lambda d: d[0] == 0 and d[1] == 0}
+    out = {}
+    i = 0
+    while len(out) < len(want) and i < 400000:
+        m = b"vt-shaped-digest-%d" % i
+        d = H(h, m)
+        for nm, f in want.items():
+            if nm not in out and f(d):
+                out[nm] = m
+        i += 1
+    _SHAPED[h] = [out[k] for k in sorted(out)]
+    return _SHAPED[h]
+
+
+def messages(ctx, n, h=None):
     lens = [0, 1, 55, 56, 64, 119, 1000]
     out = [b"", b"a"]
     while len(out) < n:
         out.append(ctx.rng.randbytes(ctx.rng.choice(lens)))
-    return out[:n]
+    out = out[:n]
+    if h is not None:
+        out += shaped_messages(h)
+    return out
 
 
 class Cell(object):
@@ -341,7 +368,7 @@ def run_rsa_pkcs1(ctx, P):
     c = Cell(ctx, "rsa", "pkcs1" if h else "pkcs1_raw", k.name, rsa_extra(k))
     n = int(k.priv.n)
     kl = (n.bit_length() + 7) // 8
-    msgs = messages(ctx, ctx.pick(4, 8))
+    msgs = messages(ctx, ctx.pick(4, 8), h)
     sig0 = dig0 = None
     for m in msgs:
         dg = H(h, m) if h else H("md5", m) + H("sha1", m)
@@ -488,7 +515,7 @@ def run_rsa_pss(ctx, P):
         ctx.count("pss_cell_does_not_fit")
         return
     sig0 = None
-    for m in messages(ctx, ctx.pick(3, 6)):
+    for m in messages(ctx, ctx.pick(3, 6), P["hash"]):
         dg = H(h, m)
         wit = {"hash": h, "salt": P["salt"], "slen": sl, "msg": m}
         st, sig = call(k.priv.sign, ba(dg), "pss", h, sl)
@@ -704,7 +731,7 @@ def run_dersig(ctx, P):
                  {"curve": k.priv.curve_name})
         trunc = lambda d: d[:bl]   # noqa (what every TLS call site does)
     sig0 = None
-    for m in messages(ctx, ctx.pick(3, 6)):
+    for m in messages(ctx, ctx.pick(3, 6), h):
         dg = H(h, m)
         wit = {"hash": h, "msg": m}
         st, sig = call(k.priv.sign, ba(trunc(dg)), None, h, None)
@@ -717,6 +744,15 @@ def run_dersig(ctx, P):
         c.pos(v if st == "ok" else False, "verify_false" if st == "ok" else
               "verify_raises:" + type(v).__name__,
               dict(wit, got=repr(v), sig=sig))
+        if dsa:
+            # an independent FIPS 186-4 verifier, and a signature made by an
+            # independent signer must be accepted
+            c.pos(dsa_ref_verify(k.priv, sig, dg),
+                  "independent_verifier_rejects", dict(wit, sig=sig))
+            rs = dsa_ref_sign(k.priv, dg, ctx.rng)
+            st, v = call(k.pub.verify, ba(rs), ba(dg), None, h, None)
+            c.pos(v if st == "ok" else False,
+                  "independent_signature_rejected", dict(wit, sig=rs))
         # hashAndSign/hashAndVerify (API level; python-ecdsa refuses digests
         # longer than the curve there: recorded as an API limit, no sig made)
         if dsa:
@@ -1442,6 +1478,27 @@ HASH_ID = {1: "md5", 2: "sha1", 3: "sha224", 4: "sha256", 5: "sha384",
            6: "sha512"}
 PSS_ID = {4: "sha256", 5: "sha384", 6: "sha512", 9: "sha256", 10: "sha384",
           11: "sha512"}
+
+
+def dsa_ref_sign(priv, digest, rng):
+    p, q, g, x = (int(v) for v in (priv.p, priv.q, priv.g, priv.private_key))
+    z = int.from_bytes(digest, "big")
+    if len(digest) * 8 > q.bit_length():
+        z >>= len(digest) * 8 - q.bit_length()
+    while True:
+        k = rng.randrange(1, q)
+        r = pow(g, k, p) % q
+        s = pow(k, -1, q) * (z + x * r) % q
+        if r and s:
+            return bytes(der_seq(der_sint(r), der_sint(s)))
+
+
+def der_seq(*items):
+    body = b"".join(items)
+    ln = len(body)
+    hdr = bytes([ln]) if ln < 128 else (
+        bytes([0x81, ln]) if ln < 256 else bytes([0x82, ln >> 8, ln & 255]))
+    return b"\x30" + hdr + body
 
 
 def dsa_ref_verify(pub, sig, digest):
